@@ -94,6 +94,27 @@ class GhostPos(object):
                 if d not in self.ptrvars and self.pos(rhs) is not None:
                     self.ptrvars.add(d)
                     changed = True
+        # a fresh node held in a local and then linked behind a chain node (node = new(); cur->next = node; cur = node;) is part
+        # of the chain from that store on: such locals carry a ghost position too (unknown until they are linked)
+        linked = set()
+        for x in walk(fn.body):
+            if x.get("k") == "assign" and x.get("op") == "=":
+                l, r = X.strip(x["ch"][0]), X.strip(x["ch"][1])
+                if l.get("k") == "member" and l.get("arrow") and l.get("n") == "next" and r is not None and r.get("k") == "ref" \
+                        and r.get("d") in cand and r.get("d") not in self.ptrvars:
+                    b = X.strip(l["ch"][0])
+                    if b.get("k") == "ref" and b.get("d") in self.ptrvars:
+                        linked.add(r["d"])
+        if linked:
+            self.ptrvars |= linked
+            changed = True
+            while changed:
+                changed = False
+                for d, rhs in assigns:
+                    if d not in self.ptrvars and self.pos(rhs) is not None:
+                        self.ptrvars.add(d)
+                        changed = True
+        self.linked_fresh = linked
         self.foreign = cand - self.ptrvars
         self.mutators = mutators or {}
         self.pure = pure or set()
@@ -279,7 +300,11 @@ class GhostPos(object):
                 if b.get("k") == "ref" and (b.get("d") in self.fresh_nodes or b.get("d") in self.foreign):
                     return self.wire(cons, b["d"], "next", n["ch"][1])     # wiring a node that is not in self's chain
                 keep = "p%d" % b["d"] if b.get("k") == "ref" and b.get("d") in self.ptrvars else None
-                return self.havoc_ptrs(cons, keep)
+                out = self.havoc_ptrs(cons, keep)
+                if keep is not None and rc is not None and rc.get("k") == "ref" and rc.get("d") in self.ptrvars and rc.get("d") != b.get("d"):
+                    # the node held by the right-hand local is now the successor of the node on the left
+                    out = self.assign_sym(out, "p%d" % rc["d"], Lin.sym(keep) + 1)
+                return out
             if l.get("k") == "member" and l.get("arrow") and l["n"] == "prev" and op == "=":
                 b = X.strip(l["ch"][0])
                 if b.get("k") == "ref" and (b.get("d") in self.fresh_nodes or b.get("d") in self.foreign):
